@@ -697,7 +697,12 @@ class reactive_ops:
         >>> rx_result.rx.value
         30
         """
-        return self._as_rx()._apply_operator(func, *args, **kwargs)
+        # (the operation is recorded directly: _apply_operator has a keyword
+        # of its own, `reverse`, which a keyword for `func` must not feed)
+        reactive = self._as_rx()
+        new = reactive._resolve_accessor()
+        operation = {'fn': func, 'args': args, 'kwargs': kwargs, 'reverse': False}
+        return new._clone(operation)
 
     def resolve(self, nested=True, recursive=False) -> 'rx':
         """
